@@ -10,6 +10,46 @@ from .engine import Undecided, PyExc, I, id_key
 NLMUL = z3.Function("nlmul", z3.IntSort(), z3.IntSort(), z3.IntSort())
 
 
+def nl_factors(t):
+    if z3.is_app(t) and t.decl().eq(NLMUL):
+        return nl_factors(t.arg(0)) + nl_factors(t.arg(1))
+    return [t]
+
+
+def nl_decompose(t):
+    """(integer coefficient, list of non-constant factors) of a product term"""
+    if z3.is_int_value(t):
+        return t.as_long(), []
+    if z3.is_app(t) and t.decl().kind() == z3.Z3_OP_MUL:
+        c, fs = 1, []
+        for ch in t.children():
+            c2, f2 = nl_decompose(ch)
+            c *= c2
+            fs += f2
+        return c, fs
+    return 1, nl_factors(t)
+
+
+def nl_product(fs):
+    """AC-canonical uninterpreted product of the factor terms"""
+    fs = sorted(fs, key=lambda t: t.sexpr())
+    r = fs[0]
+    for f in fs[1:]:
+        r = NLMUL(r, f)
+    return r
+
+
+def nl_mul(ta, tb):
+    ca, fa = nl_decompose(ta)
+    cb, fb = nl_decompose(tb)
+    fs = fa + fb
+    if not fs:
+        return z3.IntVal(ca * cb)
+    p = nl_product(fs)
+    c = ca * cb
+    return p if c == 1 else z3.IntVal(c) * p
+
+
 def _is_pint(v):
     return isinstance(v, int)       # includes bool
 
@@ -105,14 +145,28 @@ class OpsMixin:
             return self.mkint(ta - tb)
         if opn == "Mult":
             if getattr(self, "nl_uf", False) and not (isinstance(a, int) or isinstance(b, int)):
-                x, y = sorted([ta, tb], key=lambda t: t.sexpr())
-                return self.mkint(NLMUL(x, y))
+                r = nl_mul(ta, tb)
+                # ground AC instances: congruent-but-differently-written factors sort differently
+                _, fs = nl_decompose(r)
+                if 2 <= len(fs) <= 3:
+                    import itertools
+                    base = nl_product(fs)
+                    for perm in itertools.permutations(fs):
+                        t = perm[0]
+                        for f in perm[1:]:
+                            t = NLMUL(t, f)
+                        if not t.eq(base):
+                            self.p.assume(t == base)
+                return self.mkint(r)
             return self.mkint(ta * tb)
         if opn in ("FloorDiv", "Mod"):
             if _is_pint(b):
                 if b == 0:
                     raise PyExc(ZeroDivisionError)
                 if b > 0:
+                    if opn == "Mod" and getattr(self, "nl_uf", False) and not z3.is_int_value(z3.simplify(ta)) \
+                            and self.p.implied(z3.And(ta >= 0, ta < b)):
+                        return self.mkint(ta)          # already reduced
                     return self.mkint(ta / tb if opn == "FloorDiv" else ta % tb)
             if not self.p.implied(tb > 0):
                 if self.p.branch(tb == 0):
@@ -176,6 +230,17 @@ class OpsMixin:
     def int_bitop_sym(self, opn, a, b):
         """both symbolic: need proven bounds 0 <= a,b < 2^k (k <= 64): bit-blast through BV"""
         ta, tb = self.it(a), self.it(b)
+        if getattr(self, "nl_uf", False):
+            # algebraic contracts: bit operations on two symbolic operands are uninterpreted
+            # (commutative by argument order); only determinism is used
+            x, y = sorted([ta, tb], key=lambda t: t.sexpr())
+            f = z3.Function("bitop_" + opn, z3.IntSort(), z3.IntSort(), z3.IntSort())
+            r = f(x, y)
+            self.p.assume(r >= 0)
+            for k in (8,):
+                if self.p.implied(z3.And(ta >= 0, ta < 256, tb >= 0, tb < 256)):
+                    self.p.assume(r < 256)
+            return self.mkint(r)
         for k in (8, 16, 32, 64, 128, 256, 512):
             lim = I(1 << k)
             if self.p.implied(z3.And(ta >= 0, ta < lim, tb >= 0, tb < lim)):
@@ -298,6 +363,10 @@ class OpsMixin:
             if self.bv is not None:
                 return self.bv_compare(opn, a, b)
             ta, tb = self.it(a), self.it(b)
+            if opn == "Eq" and getattr(self, "nl_uf", False):
+                r = self.mod_eq(ta, tb)
+                if r is not None:
+                    return self.mkbool(r)
             f = {"Eq": lambda x, y: x == y, "Lt": lambda x, y: x < y, "LtE": lambda x, y: x <= y,
                  "Gt": lambda x, y: x > y, "GtE": lambda x, y: x >= y}[opn]
             return self.mkbool(f(ta, tb))
@@ -316,6 +385,34 @@ class OpsMixin:
             if isinstance(o, HObj) and hasattr(o.cls, d) and getattr(o.cls, d) is not getattr(object, d):
                 return self.truth(self.call_function(getattr(o.cls, d), [a, b], {}))
         raise Undecided("comparison %s of %r and %r" % (opn, a, b))
+
+    def mod_eq(self, ta, tb):
+        """equality of two residues modulo the curve order N or the field prime P, decided on
+        polynomial normal forms (zn_ring); None when the terms are not residues of one modulus"""
+        from . import zn
+        from .theories import P as _P, N as _N
+
+        def modulus(t):
+            t = z3.simplify(t)
+            if z3.is_app(t) and t.decl().kind() == z3.Z3_OP_MOD and z3.is_int_value(t.arg(1)):
+                return t.arg(1).as_long()
+            return None
+        ma, mb = modulus(ta), modulus(tb)
+        M = ma or mb
+        if M not in (_P, _N):
+            return None
+        for t, mm in ((ta, ma), (tb, mb)):
+            if mm is None and not (z3.is_int_value(t) and 0 <= t.as_long() < M):
+                return None
+            if mm is not None and mm != M:
+                return None
+        nz = zn.normalizer(self.p, M)
+        pa, pb = nz.poly(z3.simplify(ta)), nz.poly(z3.simplify(tb))
+        if pa.key() == pb.key():
+            return True
+        # both denote the same residues: record the equivalence as a lemma, keep the raw comparison
+        self.p.assume((ta == tb) == (nz.term_mod(pa) == nz.term_mod(pb)))
+        return None
 
     def float_compare(self, opn, a, b):
         """Python compares int with float exactly; a float constant is an exact rational."""
